@@ -144,6 +144,52 @@ func checkC20(c *ctx) {
 			}
 		}
 	}
+	// ---- (b'') small packages whose layout or surroundings have nothing to do
+	// with the flow itself: every mode must accept them and write code that
+	// compiles (found F22-F25: each of these was accepted in base mode and
+	// failed in another mode).
+	if c.R.NumViolations() < 6 && c.RS == nil {
+		sdir := newScratch(work, "surround")
+		body := func(pkg, fn, extra string) string {
+			return "//go:build cff\n\npackage " + pkg + "\n\nimport (\n\t\"context\"\n\n\t\"go.uber.org/cff\"\n)\n\n" + extra +
+				"func " + fn + "(ctx context.Context, n int) (s string, err error) {\n\terr = cff.Flow(ctx,\n\t\tcff.Params(n),\n\t\tcff.Results(&s),\n\t\tcff.Concurrency(2),\n\t\tcff.Task(func(i int) (string, error) { return string(rune('a' + i%26)), nil }),\n\t)\n\treturn\n}\n"
+		}
+		type spkg struct {
+			name  string
+			files map[string]string
+		}
+		lineEnd := strings.Replace(body("lineend", "Run", ""), "\t)\n\treturn", "//line tmpl.go:1\n\t)\n\treturn", 1)
+		parEnd := "//go:build cff\n\npackage parend\n\nimport (\n\t\"context\"\n\n\t\"go.uber.org/cff\"\n)\n\nfunc Run(ctx context.Context, n int) error {\n\treturn cff.Parallel(ctx,\n\t\tcff.Task(func() error { _ = n; return nil }),\n//line tmpl.go:1\n\t)\n}\n"
+		spkgs := []spkg{
+			{"nonewline", map[string]string{"p.go": strings.TrimSuffix(body("nonewline", "Run", ""), "\n")}},
+			{"pkgnames", map[string]string{"p.go": body("pkgnames", "Run", "var debug = 3\n\nvar _ = debug\n\nfunc time() int { return 1 }\n\nvar _ = time\n\n")}},
+			{"underscore", map[string]string{"a_b.go": body("underscore", "RunA", ""), "ab.go": body("underscore", "RunB", "")}},
+			{"oddnames", map[string]string{"my-flow.v2.go": body("oddnames", "Run", "")}},
+			{"lineend", map[string]string{"p.go": lineEnd}},
+			{"parend", map[string]string{"p.go": parEnd}},
+		}
+		for _, sp := range spkgs {
+			for _, mode := range []string{"base", "source-map", "modifier"} {
+				if mode == "modifier" && sp.name == "parend" {
+					continue // modifier mode has no cff.Parallel
+				}
+				rel := mode + "/" + sp.name
+				for fn, content := range sp.files {
+					writeFile(filepath.Join(sdir, rel, fn), content)
+				}
+				tr := runTool(sdir, cff, "-genmode", mode, "-quiet", "./"+rel)
+				vet, verr := vc.Run(sdir, vc.Env(), "go", "vet", "-framepointer", "./"+rel)
+				evals++
+				distinct["surround:"+rel] = true
+				if tr.Exit != 0 || verr != nil || crashed(tr) {
+					c.R.Add(vc.Violation{Property: "C20", Case: "surround/" + rel,
+						Why:     fmt.Sprintf("a well-formed flow in a package with an unusual surrounding (%s): %s mode does not produce code that compiles (cff exit %d): %s %s", sp.name, mode, tr.Exit, firstLines(tr.Stderr, 2), firstLines(vet, 3)),
+						Obs:     map[string]string{"clause": "surround:" + sp.name},
+						Witness: map[string]interface{}{"engine": "T", "mode": mode, "files": sp.files, "stderr": tr.Stderr, "vet": vet}})
+				}
+			}
+		}
+	}
 	acov := map[string]interface{}{
 		"evaluations":         evals,
 		"distinct_nontrivial": len(distinct),
